@@ -275,3 +275,11 @@ def _replay_sched(j, rp):
 
 
 REGISTRY["replay:sched_case"] = _replay_sched
+
+
+def _rerun_job(j, rp):
+    """Exact replay: run the originating job again (same seed; check.py restores its PYTHONHASHSEED)."""
+    return REGISTRY[rp["job"]["kind"]](rp["job"])
+
+
+REGISTRY["replay:rerun_job"] = _rerun_job
